@@ -319,6 +319,20 @@ def run(rep, drv):
 				for mult in range(1, 12):
 					_, ca = call(su.newsvendor_with_disruptions, h, p, d, a, b, d * mult)
 					if ca < c - 1e-9 * max(1, c): errs.append('S=%r better' % (d * mult))
+				# evaluation mode at ANY level (not only multiples of the per-period demand) is the defining expectation over the number n of
+				# consecutive disrupted periods: pi_0 = b/(a+b), pi_n = a b (1-b)^(n-1)/(a+b); cost = sum pi_n [h (S-(n+1)d)+ + p ((n+1)d-S)+]
+				def defn_dis(S_):
+					tot_, n_ = 0.0, 0
+					while True:
+						pi_ = b / (a + b) if n_ == 0 else a * b * (1 - b) ** (n_ - 1) / (a + b)
+						tot_ += pi_ * (h * max(0, S_ - (n_ + 1) * d) + p * max(0, (n_ + 1) * d - S_))
+						n_ += 1
+						if n_ > 5 and pi_ * p * (n_ + 1) * d < 1e-13 * max(1.0, tot_) / max(b, 1e-3):
+							return tot_
+				for frac in (0.6, 0.5, 0.97, 1.25, 3.5, 3.99, 7.75):
+					_, ca = call(su.newsvendor_with_disruptions, h, p, d, a, b, d * frac)
+					if not close(ca, defn_dis(d * frac), 1e-7): errs.append('cost of S=%r evaluated %r, defining expectation %r' % (d * frac, ca, defn_dis(d * frac)))
+					if ca < c - 1e-9 * max(1, c): errs.append('S=%r evaluates better (%r) than the returned optimum (%r)' % (d * frac, ca, c))
 			else:
 				K = rng.choice([8, 50, 1]); lam = rng.choice([100, 1300]); a, b = rng.choice([0.5, 1.5]), rng.choice([6, 14])
 				if k < 3 or rng.random() < .4:
